@@ -35,8 +35,12 @@ CvAdd(a, b) == [e \in 0..(M - 1) |-> a[e] + b[e]]
 CvSub(a, b) == [e \in 0..(M - 1) |-> a[e] - b[e]]
 CvTerm(z, s, v) == [e \in 0..(M - 1) |-> z * v[Mod(e - s, M)]]          \* z * zeta^s * v
 CvConj(v) == [e \in 0..(M - 1) |-> v[Mod(0 - e, M)]]
-RECURSIVE CvSum(_, _)
-CvSum(f, S) == IF S = {} THEN CvZero ELSE LET x == CHOOSE y \in S : TRUE IN CvAdd(f[x], CvSum(f, S \ {x}))
+\* sum of f over a product index set (1..r) \X (1..c) / an interval 1..n, without set operations
+RECURSIVE CvSumTo(_, _, _)
+CvSumTo(f, c, k) == IF k = 0 THEN CvZero ELSE CvAdd(f[<<((k - 1) \div c) + 1, ((k - 1) % c) + 1>>], CvSumTo(f, c, k - 1))
+RECURSIVE CvSumSeq(_, _)
+CvSumSeq(f, k) == IF k = 0 THEN CvZero ELSE CvAdd(f[k], CvSumSeq(f, k - 1))
+CvSum2(f, r, c) == CvSumTo(f, c, r * c)
 
 \* arrays: [r, c, den, v] ;  value = v / den
 Arr(r, c, den, v) == [r |-> r, c |-> c, den |-> den, v |-> v]
@@ -54,21 +58,41 @@ AxE(c, d, k, x) == AxExp(c, d, k, x) * (M \div AxL(c))
 NormSq(c) == RNorm(c.q[2], c.n * c.q[1])                  \* 1 / (n Q)
 
 ConjSign == IF Variant = "no-conj" THEN 1 ELSE 0 - 1
+\* deformable mirror: actuator (a, b) sits at sample (iy[a], ix[b]) (0-based) of the n x n poke array; the surface is the CIRCULAR
+\* convolution of the pokes with the influence function, moved by an integer number of samples (the Fourier ramp of `shift`),
+\* then fftshift-ed (index n div 2 <- index 0), times the gain (2 for wavefront error, times the obliquity 1)
+DmKernel(st, pr, pq, a, b) == st.ifn[Mod(pr - 1 - (st.n[1] \div 2) - st.shift[2] - st.iy[a], st.n[1]) + 1][Mod(pq - 1 - (st.n[2] \div 2) - st.shift[1] - st.ix[b], st.n[2]) + 1]
+\* lattice of prepare_actuator_lattice along one axis: slice(neg, pos, sep)
+LatNeg(n, nact, sep) == (n \div 2) + ((0 - nact) \div 2) * sep + (IF nact % 2 = 0 THEN sep \div 2 ELSE 0)
+LatPos(n, nact, sep) == (n \div 2) + (nact \div 2) * sep + (IF nact % 2 = 0 THEN sep \div 2 ELSE 0)
+LatCount(n, nact, sep) == ((LatPos(n, nact, sep) - LatNeg(n, nact, sep)) + sep - 1) \div sep
+Lattice(n, nact, sep) == [j \in 1..LatCount(n, nact, sep) |-> LatNeg(n, nact, sep) + (j - 1) * sep]
 \* ---- forward application of a stage
 RECURSIVE Apply(_, _), ApplyAdj(_, _), Chain(_, _, _), AdjChain(_, _, _), AdjFwd(_, _, _)
 Apply(st, X) ==
   CASE st.op = "dft" ->
          Arr(st.row.m, st.col.m, X.den * st.sc[2],
              [k \in 1..st.row.m |-> [l \in 1..st.col.m |->
-                CvSum([ij \in (1..st.row.n) \X (1..st.col.n) |-> CvTerm(st.sc[1], AxE(st.row, st.dir, k, ij[1]) + AxE(st.col, st.dir, l, ij[2]), X.v[ij[1]][ij[2]])], (1..st.row.n) \X (1..st.col.n))]])
+                CvSum2([ij \in (1..st.row.n) \X (1..st.col.n) |-> CvTerm(st.sc[1], AxE(st.row, st.dir, k, ij[1]) + AxE(st.col, st.dir, l, ij[2]), X.v[ij[1]][ij[2]])], st.row.n, st.col.n)]])
     [] st.op = "mask" -> Arr(X.r, X.c, X.den, [a \in 1..X.r |-> [b \in 1..X.c |-> CvTerm(st.z[a][b], st.e[a][b], X.v[a][b])]])
     [] st.op = "int" ->
          Arr(Len(st.L), Len(st.R), X.den,
              [k \in 1..Len(st.L) |-> [l \in 1..Len(st.R) |->
-                CvSum([ij \in (1..X.r) \X (1..X.c) |-> CvTerm(st.L[k][ij[1]] * st.R[l][ij[2]], 0, X.v[ij[1]][ij[2]])], (1..X.r) \X (1..X.c))]])
+                CvSum2([ij \in (1..X.r) \X (1..X.c) |-> CvTerm(st.L[k][ij[1]] * st.R[l][ij[2]], 0, X.v[ij[1]][ij[2]])], X.r, X.c)]])
     [] st.op = "modes" ->
          Arr(Len(st.modes[1]), Len(st.modes[1][1]), X.den,
-             [a \in 1..Len(st.modes[1]) |-> [b \in 1..Len(st.modes[1][1]) |-> CvSum([k \in 1..Len(st.modes) |-> CvTerm(st.modes[k][a][b], 0, X.v[k][1])], 1..Len(st.modes))]])
+             [a \in 1..Len(st.modes[1]) |-> [b \in 1..Len(st.modes[1][1]) |-> CvSumSeq([k \in 1..Len(st.modes) |-> CvTerm(st.modes[k][a][b], 0, X.v[k][1])], Len(st.modes))]])
+    [] st.op = "dmconv" ->
+         Arr(st.n[1], st.n[2], X.den,
+             [pr \in 1..st.n[1] |-> [pq \in 1..st.n[2] |->
+                CvSum2([ab \in (1..Len(st.iy)) \X (1..Len(st.ix)) |-> CvTerm(st.gain * DmKernel(st, pr, pq, ab[1], ab[2]), 0, X.v[ab[1]][ab[2]])], Len(st.iy), Len(st.ix))]])
+    [] st.op = "padcrop" ->
+         Arr(st.out[1], st.out[2], X.den,
+             [a \in 1..st.out[1] |-> [b \in 1..st.out[2] |->
+                LET i == a - Off(X.r, st.out[1])  j == b - Off(X.c, st.out[2]) IN
+                IF i >= 1 /\ i <= X.r /\ j >= 1 /\ j <= X.c THEN X.v[i][j] ELSE CvZero]])
+    [] st.op = "scale" -> Arr(X.r, X.c, X.den * st.sc[2], [a \in 1..X.r |-> [b \in 1..X.c |-> CvTerm(st.sc[1], 0, X.v[a][b])]])
+    [] st.op = "real" -> Arr(X.r, X.c, X.den * 2, [a \in 1..X.r |-> [b \in 1..X.c |-> CvAdd(X.v[a][b], CvConj(X.v[a][b]))]])
     [] OTHER -> ArrSub(X, Chain(st.body, 1, X))
 Chain(sts, k, X) == IF k > Len(sts) THEN X ELSE Chain(sts, k + 1, Apply(sts[k], X))
 
@@ -77,15 +101,27 @@ ApplyAdj(st, Y) ==
   CASE st.op = "dft" ->
          Arr(st.row.n, st.col.n, Y.den * st.sc[2],
              [i \in 1..st.row.n |-> [j \in 1..st.col.n |->
-                CvSum([kl \in (1..st.row.m) \X (1..st.col.m) |-> CvTerm(st.sc[1], 0 - (AxE(st.row, st.dir, kl[1], i) + AxE(st.col, st.dir, kl[2], j)), Y.v[kl[1]][kl[2]])], (1..st.row.m) \X (1..st.col.m))]])
+                CvSum2([kl \in (1..st.row.m) \X (1..st.col.m) |-> CvTerm(st.sc[1], 0 - (AxE(st.row, st.dir, kl[1], i) + AxE(st.col, st.dir, kl[2], j)), Y.v[kl[1]][kl[2]])], st.row.m, st.col.m)]])
     [] st.op = "mask" -> Arr(Y.r, Y.c, Y.den, [a \in 1..Y.r |-> [b \in 1..Y.c |-> CvTerm(st.z[a][b], ConjSign * st.e[a][b], Y.v[a][b])]])
     [] st.op = "int" ->
          Arr(Len(st.L[1]), Len(st.R[1]), Y.den,
              [i \in 1..Len(st.L[1]) |-> [j \in 1..Len(st.R[1]) |->
-                CvSum([kl \in (1..Y.r) \X (1..Y.c) |-> CvTerm(st.L[kl[1]][i] * st.R[kl[2]][j], 0, Y.v[kl[1]][kl[2]])], (1..Y.r) \X (1..Y.c))]])
+                CvSum2([kl \in (1..Y.r) \X (1..Y.c) |-> CvTerm(st.L[kl[1]][i] * st.R[kl[2]][j], 0, Y.v[kl[1]][kl[2]])], Y.r, Y.c)]])
     [] st.op = "modes" ->
          Arr(Len(st.modes), 1, Y.den,
-             [k \in 1..Len(st.modes) |-> [b \in 1..1 |-> CvSum([ij \in (1..Y.r) \X (1..Y.c) |-> CvTerm(st.modes[k][ij[1]][ij[2]], 0, Y.v[ij[1]][ij[2]])], (1..Y.r) \X (1..Y.c))]])
+             [k \in 1..Len(st.modes) |-> [b \in 1..1 |-> CvSum2([ij \in (1..Y.r) \X (1..Y.c) |-> CvTerm(st.modes[k][ij[1]][ij[2]], 0, Y.v[ij[1]][ij[2]])], Y.r, Y.c)]])
+    [] st.op = "dmconv" ->
+         Arr(Len(st.iy), Len(st.ix), Y.den,
+             [a \in 1..Len(st.iy) |-> [b \in 1..Len(st.ix) |->
+                CvSum2([p \in (1..st.n[1]) \X (1..st.n[2]) |-> CvTerm(st.gain * DmKernel(st, p[1], p[2], a, b), 0, Y.v[p[1]][p[2]])], st.n[1], st.n[2])]])
+    [] st.op = "padcrop" ->
+         \* transpose of the embedding / restriction: back to the recorded input shape
+         Arr(st.inn[1], st.inn[2], Y.den,
+             [i \in 1..st.inn[1] |-> [j \in 1..st.inn[2] |->
+                LET a == i + Off(st.inn[1], st.out[1])  b == j + Off(st.inn[2], st.out[2]) IN
+                IF a >= 1 /\ a <= st.out[1] /\ b >= 1 /\ b <= st.out[2] THEN Y.v[a][b] ELSE CvZero]])
+    [] st.op = "scale" -> Arr(Y.r, Y.c, Y.den * st.sc[2], [a \in 1..Y.r |-> [b \in 1..Y.c |-> CvTerm(st.sc[1], 0, Y.v[a][b])]])
+    [] st.op = "real" -> Arr(Y.r, Y.c, Y.den * 2, [a \in 1..Y.r |-> [b \in 1..Y.c |-> CvAdd(Y.v[a][b], CvConj(Y.v[a][b]))]])
     [] OTHER -> LET inner == IF Variant = "forward-order" THEN AdjFwd(st.body, 1, Y) ELSE AdjChain(st.body, Len(st.body), Y) IN
                 IF Variant = "negated" THEN ArrSub(Y, ArrNeg(inner)) ELSE ArrSub(Y, inner)
 AdjChain(sts, k, Y) == IF k = 0 THEN Y ELSE AdjChain(sts, k - 1, ApplyAdj(sts[k], Y))
@@ -121,7 +157,17 @@ Spec == Init /\ [][Next]_vars
 TapeDiscipline == /\ (phase = "forward" => tape = [k \in 1..(pc - 1) |-> k])
                   /\ (phase = "done" => tape = << >>)
 ShapeLaw == phase = "done" => \A kl \in DOMAIN bw : bw[kl].r = InShape[1] /\ bw[kl].c = InShape[2]
-AdjointLaw == phase = "done" => \A ij \in InIdx : \A kl \in DOMAIN bw : ArrEqConj(bw[kl], ij[1], ij[2], fw[ij], kl[1], kl[2])
+\* programs that take a real part are real-linear maps between real arrays: the law holds in the real inner product
+IsReal == "real" \in DOMAIN prog /\ prog.real
+ArrEqRe(X, a, b, Y, c, d) == CvTerm(Y.den, 0, CvAdd(X.v[a][b], CvConj(X.v[a][b]))) = CvTerm(X.den, 0, CvAdd(Y.v[c][d], CvConj(Y.v[c][d])))
+AdjointLaw == phase = "done" => \A ij \in InIdx : \A kl \in DOMAIN bw :
+                 IF IsReal THEN ArrEqRe(bw[kl], ij[1], ij[2], fw[ij], kl[1], kl[2]) ELSE ArrEqConj(bw[kl], ij[1], ij[2], fw[ij], kl[1], kl[2])
+\* the actuator lattice of a DM stage is the one prepare_actuator_lattice builds, and lies inside the poke array
+LatticeLaw == \A k \in 1..Len(prog.stages) : prog.stages[k].op = "dmconv" =>
+                 LET st == prog.stages[k] IN
+                 /\ st.iy = Lattice(st.n[1], st.nact, st.sep) /\ st.ix = Lattice(st.n[2], st.nact, st.sep)
+                 /\ \A j \in 1..Len(st.iy) : st.iy[j] >= 0 /\ st.iy[j] < st.n[1]
+                 /\ \A j \in 1..Len(st.ix) : st.ix[j] >= 0 /\ st.ix[j] < st.n[2]
 \* the rational part of the normalisation of every DFT stage: sc^2 * c2left = 1 / (n Q)_row / (n Q)_col
 RECURSIVE NormOk(_)
 NormOk(sts) == \A k \in 1..Len(sts) :
